@@ -13,7 +13,7 @@ def formOf (form : String) : FromStr.PForm :=
   match form with
   | "plain" => .plain
   | "saturating" => .saturating
-  | "wrapping" => .wrapping
+  | "wrapping" | "wtype" => .wrapping      -- "wtype": `Wrapping::<F>::from_str[_binary|_octal|_hex]` = `F::wrapping_from_str…` (`wrapping.rs`)
   | _ => .overflowing        -- "hook", "overflowing"
 
 def ansStr : FromStr.PAns → String
@@ -36,7 +36,7 @@ def parseSpec (L : Layout) (form : String) (radix : Nat) (bytes : List Nat) : St
     match form with
     | "hook" | "overflowing" => s!"O:{L.wrap E},{b01 (!decide (inRange L E))}"
     | "plain" => if inRange L E then s!"O:{E}" else "E:3"
-    | "wrapping" => s!"O:{L.wrap E}"
+    | "wrapping" | "wtype" => s!"O:{L.wrap E}"
     | _ => s!"O:{L.clamp E}"
 
 def specOfArgs (a : List String) : Option (FmtSpec × List String) :=
